@@ -183,6 +183,7 @@ func runC08(ctx *core.Ctx) {
 			if u, ok := o.(*ssa.UnOp); ok {
 				if fa, ok := u.X.(*ssa.FieldAddr); ok {
 					if al, ok := fa.X.(*ssa.Alloc); ok {
+						al = structOrigin(al)
 						role := "start"
 						if al == countAl {
 							role = "count"
@@ -590,4 +591,39 @@ func c08Coordinates(ctx *core.Ctx, d *ssa.Function, xs, ys ssa.Value) {
 			}
 		}
 	})
+}
+
+// structOrigin follows a local struct that is a whole-value copy of another local
+// struct (a by-value parameter of a function merged into its caller) to the
+// original, as long as the copy's own fields are not written.
+func structOrigin(al *ssa.Alloc) *ssa.Alloc {
+	for depth := 0; depth < 4; depth++ {
+		var src *ssa.Alloc
+		whole := 0
+		fieldWrites := false
+		for _, r := range ssax.Referrers(al) {
+			switch x := r.(type) {
+			case *ssa.Store:
+				if x.Addr == ssa.Value(al) {
+					whole++
+					if ld, ok := x.Val.(*ssa.UnOp); ok && ld.Op == token.MUL {
+						if b, ok := ld.X.(*ssa.Alloc); ok {
+							src = b
+						}
+					}
+				}
+			case *ssa.FieldAddr:
+				for _, rr := range ssax.Referrers(x) {
+					if st, ok := rr.(*ssa.Store); ok && st.Addr == ssa.Value(x) {
+						fieldWrites = true
+					}
+				}
+			}
+		}
+		if whole != 1 || src == nil || fieldWrites {
+			return al
+		}
+		al = src
+	}
+	return al
 }
